@@ -12,6 +12,8 @@ import H4.Driver.Vs
 import H4.Driver.GR
 import H4.Driver.Attr
 import H4.Driver.MCache
+import H4.Driver.Xapi
+import H4.Driver.Limits
 import H4.Driver.Bits
 import H4.Driver.SkpHuff
 import H4.Driver.NBit
@@ -30,11 +32,14 @@ structure World where
   gr : GrState := {}
   attr : AttrState := {}
   mcache : H4.MCache.State := mcacheInit
+  limits : LimSt := {}
   dd : DDState := {}
 
 def stepWorld (w : World) (engine : String) (args : List String) : World × String :=
   match engine with
   | "rle" => (w, stepRle args)
+  | "dfrle" => (w, stepDfrle args)
+  | "xapi" => (w, stepXapi args)
   | "dd" => let (d, out) := stepDD w.dd args; ({ w with dd := d }, out)
   | "sd" => (w, stepSd args)
   | "conv" => (w, stepConv args)
@@ -50,6 +55,7 @@ def stepWorld (w : World) (engine : String) (args : List String) : World × Stri
   | "nbit" => (w, stepNBit args)
   | "attr" => let (s, out) := stepAttr w.attr args; ({ w with attr := s }, out)
   | "gr" => let (s, out) := stepGr w.gr args; ({ w with gr := s }, out)
+  | "limits" => let (l, out) := stepLimits w.limits args; ({ w with limits := l }, out)
   | "hp" => let (h, r) := stepHp w.hp args; ({ w with hp := h }, r)
   | _ => (w, "bad-engine")
 
